@@ -71,7 +71,7 @@ prop("C05",
      [("T3", T.T3, K01, {"want_stream": True}), ("U1", T.U1, K01, {}), ("S2", S.S2, K01, {}), ("S3", S.S3, K01, {}),
       ("S5", S.S5, K01, {}), ("S7", S.S7, K01, {}), ("S4", S.S4, K01, {"liveness": True}),
       ("S6", S.S6, K01, {"roles_filter": ("READY", "DONE")}),
-      ("R3", B.R3, ("K0",), {"parts": ("structures", "counts")}), ("T5", T.T5, K01, {}), ("S1", S.S1, K01, {}), ("R4", B.R4, ("K0",), {}), ("N7", B.N7, K01, {}), ("T6", T.T6, K01, {})],
+      ("R3", B.R3, ("K0",), {"parts": ("structures", "counts")}), ("T5", T.T5, K01, {}), ("S1", S.S1, K01, {}), ("R4", B.R4, ("K0",), {}), ("N7", B.N7, K01, {}), ("T6", T.T6, K01, {}), ("A1", T.A1, K01, {})],
      K01,
      "Decides T3 on the stream poll closure (no return that may be Pending after a Ready(Some) from the done receiver without re-polling it), "
      "U1 (end-of-stream bookkeeping: countdown from node_count decremented on Ready(Some), both senders released at 0 and for the empty graph, "
